@@ -5,6 +5,7 @@ import (
 	"bytes"
 	"fmt"
 	"os"
+	"regexp"
 	"strings"
 	"testing"
 
@@ -12,7 +13,10 @@ import (
 	"github.com/yuin/gopher-lua/parse"
 	"pgregory.net/rapid"
 
+	"verif/e1"
 	"verif/gl"
+	"verif/lgen"
+	"verif/luaref"
 	"verif/vf"
 )
 
@@ -124,7 +128,12 @@ func brief(o outcome) string {
 	return "syntax: " + o.err
 }
 
-func init() { chkLoad.Journal = true }
+func init() {
+	chkLoad.Journal = true
+	chkLayout.Journal = true
+	chkValid.Journal = true
+	chkRepeat.Journal = true
+}
 
 func classify(k *vf.C, c *LoadCase, o outcome) {
 	k.Class("outcome:" + o.class)
@@ -357,5 +366,197 @@ func FuzzLoad(f *testing.F) {
 			return
 		}
 		chkLoad.Run(t, &LoadCase{Src: src, Text: string(src), Kind: "fuzz"})
+	})
+}
+
+// ---------------------------------------------------------------------------------------------
+// goto/label-heavy token soups (the front-end's label bookkeeping)
+
+var gotoAlphabet = []string{"goto l1", "goto l2", "goto l3", "::l1::", "::l2::", "::l3::", "local a", "local b = 1", "local c, d", "do", "end", "end",
+	"while x do", "repeat", "until x", "until a", "if x then", "else", "elseif y then", "break", "return", "for i = 1, 2 do", "for k in f do",
+	"local function f()", "function g()", "print(a)", "x = function() goto l1 end", ";", "a = b"}
+
+func TestLoadGotoSoup(t *testing.T) {
+	vf.Rapid(t, func(rt *rapid.T) {
+		n := rapid.IntRange(1, 24).Draw(rt, "ntok")
+		var b bytes.Buffer
+		for i := 0; i < n; i++ {
+			b.WriteString(gotoAlphabet[rapid.IntRange(0, len(gotoAlphabet)-1).Draw(rt, "tok")])
+			b.WriteString([]string{" ", "\n", " ", "\n  "}[rapid.IntRange(0, 3).Draw(rt, "sep")])
+		}
+		src := b.Bytes()
+		chkLoad.Run(rt, &LoadCase{Src: src, Text: string(src), Kind: "goto_soup"})
+	})
+}
+
+// TestLoadRepeated loads inputs with several independent errors many times: the outcome may depend on nothing but the bytes.
+func TestLoadRepeated(t *testing.T) {
+	vf.Rapid(t, func(rt *rapid.T) {
+		n := rapid.IntRange(2, 16).Draw(rt, "ntok")
+		var b bytes.Buffer
+		for i := 0; i < n; i++ {
+			b.WriteString(gotoAlphabet[rapid.IntRange(0, len(gotoAlphabet)-1).Draw(rt, "tok")])
+			b.WriteString("\n")
+		}
+		chkRepeat.Run(rt, &LoadCase{Src: b.Bytes(), Text: b.String(), Kind: "repeated"})
+	})
+}
+
+var chkRepeat = vf.Register("load_repeatable", func(k *vf.C, c *LoadCase) error {
+	src := string(c.Src)
+	first, err := loadOnce(src)
+	if err != nil {
+		return err
+	}
+	for i := 0; i < 40; i++ {
+		o, err := loadOnce(src)
+		if err != nil {
+			return err
+		}
+		if o != first {
+			return fmt.Errorf("load %d of the same bytes gave a different outcome: %q vs %q", i+2, brief(first), brief(o))
+		}
+	}
+	k.Class("outcome:" + first.class)
+	if !first.ok {
+		k.Nontrivial(vf.Hash(src))
+	}
+	return nil
+})
+
+// ---------------------------------------------------------------------------------------------
+// layouts: the meaning of a valid program does not depend on comments, blank space, line ends, optional semicolons and
+// redundant parentheses; every rendering is accepted
+
+type LayoutCase struct {
+	Srcs    []string `json:"renderings"`
+	Profile string   `json:"profile"`
+}
+
+func stripLines(p *lua.FunctionProto) string { return gl.DumpProto(p, false) }
+
+var chkLayout = vf.Register("layout_invariance", func(k *vf.C, c *LayoutCase) error {
+	var dumps []string
+	for i, src := range c.Srcs {
+		o, err := loadOnce(src)
+		if err != nil {
+			return fmt.Errorf("rendering %d: %v", i, err)
+		}
+		if !o.ok {
+			return fmt.Errorf("rendering %d of a valid program was rejected: %s", i, o.err)
+		}
+		fn, _ := sharedState.LoadString(src)
+		dumps = append(dumps, stripLines(fn.Proto))
+	}
+	same := true
+	for i := 1; i < len(dumps); i++ {
+		if dumps[i] != dumps[0] {
+			same = false
+		}
+	}
+	if same {
+		k.Class("identical_bytecode")
+	} else {
+		// redundant parentheses and literal spellings may legitimately change the generated code; the meaning may not:
+		// run the renderings and compare what they do
+		k.Class("bytecode_differs_traces_compared")
+		r := e1.RunRef(c.Srcs[0], nil)
+		if r.ParseErr != nil || r.Unspecified != "" {
+			k.Discard("reference: unspecified or over budget")
+			return nil
+		}
+		var t0 string
+		for i, src := range c.Srcs {
+			g := e1.RunGopher(src, e1.BudgetFor(r))
+			if g.Panic != "" || g.Overrun != "" {
+				k.Discard("run does not finish cleanly (subject of C01/C05)")
+				return nil
+			}
+			// line numbers in messages legitimately differ between layouts
+			t := lineRe.ReplaceAllString(strings.Join(e1.GTraceStrings(g.Trace), "\n")+fmt.Sprintf("\nfailed=%v", g.Failed), "<string>:N:")
+			t = addrRe.ReplaceAllString(t, "$1: ADDR")
+			if i == 0 {
+				t0 = t
+			} else if t != t0 {
+				return fmt.Errorf("renderings 0 and %d of one program behave differently", i)
+			}
+		}
+	}
+	k.Class("profile:" + c.Profile)
+	if len(c.Srcs) >= 3 {
+		k.Nontrivial(vf.Hash(c.Srcs...))
+		k.Sample("layouts", 1, map[string]any{"renderings": []string{clip(c.Srcs[0], 400), clip(c.Srcs[len(c.Srcs)-1], 600)}})
+	}
+	return nil
+})
+
+var lineRe = regexp.MustCompile(`<string>:\d+:`)
+var addrRe = regexp.MustCompile(`(table|userdata|function|thread|channel): 0x[0-9a-f]+`)
+
+func TestLayouts(t *testing.T) {
+	profiles := lgen.AllProfiles()
+	vf.Rapid(t, func(rt *rapid.T) {
+		p := profiles[rapid.IntRange(0, len(profiles)-1).Draw(rt, "profile")]
+		g := lgen.New(rt, p)
+		b := g.Program()
+		c := &LayoutCase{Profile: p.Name}
+		c.Srcs = append(c.Srcs, lgen.Print(b, &lgen.Layout{}))
+		c.Srcs = append(c.Srcs, lgen.Print(b, &lgen.Layout{Ch: g, Wild: true, Semis: true, CRLF: rapid.IntRange(0, 3).Draw(rt, "crlf")}))
+		c.Srcs = append(c.Srcs, lgen.Print(b, &lgen.Layout{Ch: g, Wild: true, Spell: true, Semis: true, Parens: true, HostileComments: true, CRLF: rapid.IntRange(0, 3).Draw(rt, "crlf2")}))
+		chkLayout.Run(rt, c)
+	})
+}
+
+// ---------------------------------------------------------------------------------------------
+// every text the grammar accepts is accepted: an independent recogniser (verif/luaref's parser) decides validity of
+// mutated programs
+
+var chkValid = vf.Register("valid_accepted", func(k *vf.C, c *LoadCase) error {
+	src := string(c.Src)
+	main, perr := luaref.Parse(src)
+	o, err := loadOnce(src)
+	if err != nil {
+		return err
+	}
+	if perr != nil {
+		k.Class("recogniser:rejects")
+		return nil
+	}
+	info := main.Info
+	if info.HasGoto || info.MaxLocals > 150 || info.MaxUpvals > 50 || info.MaxDepth > 150 || len(src) > 20000 {
+		k.Class("recogniser:accepts_but_near_a_limit_or_goto")
+		return nil
+	}
+	k.Class("recogniser:accepts")
+	if !o.ok {
+		return fmt.Errorf("a text the Lua 5.1 grammar accepts was rejected: %s", o.err)
+	}
+	k.Nontrivial(vf.Hash(src))
+	k.Sample("valid", 2, map[string]any{"text": clip(src, 300)})
+	return nil
+})
+
+func TestValidAccepted(t *testing.T) {
+	loadCorpus()
+	vf.Rapid(t, func(rt *rapid.T) {
+		var src []byte
+		if rapid.Bool().Draw(rt, "fromcorpus") {
+			i := rapid.IntRange(0, len(corpus)-1).Draw(rt, "file")
+			src = corpus[i]
+			if len(src) > 1200 {
+				off := rapid.IntRange(0, len(src)-1200).Draw(rt, "off")
+				for off > 0 && src[off-1] != '\n' {
+					off--
+				}
+				src = src[off : off+1200]
+				if j := bytes.LastIndexByte(src, '\n'); j > 0 {
+					src = src[:j]
+				}
+			}
+			src = mutate(rt, src)
+		} else {
+			src = genTokenSoup(rt)
+		}
+		chkValid.Run(rt, &LoadCase{Src: src, Text: string(src), Kind: "validity"})
 	})
 }
